@@ -9,11 +9,15 @@ use verif_rt::explore::Scenario;
 
 pub fn scenarios(tier: Tier) -> Vec<Scenario> {
     let mut v = vec![];
-    let mut add = |np: u32, k: u32, cap: usize, pol: Pol, with_chan: bool, reader: bool, bound: u32| {
+    let mut add_x = |np: u32, k: u32, cap: usize, pol: Pol, with_chan: bool, reader: bool, iter_clone: bool, bound: u32| {
         let mut prog = producers(Program::new(StoreSpec::new(1, cap, pol)), np, k, |_, id| Op::Dispatch(Act::new(id)));
         if reader {
             // an outstanding clone used by another thread while the wrapper is dropped
             prog = prog.thread("clone-user", vec![Op::GetState(50), Op::DispatchVia(Act::new(800)), Op::GetState(51)]);
+        }
+        if iter_clone {
+            // ... or used to create (and drop) a state iterator
+            prog = prog.thread("clone-iter", vec![Op::IterOpen(40), Op::IterClose(40)]);
         }
         prog.droppable = true;
         let mut main = vec![Op::AddSub { id: 1, gated: false, reads: false }];
@@ -34,13 +38,21 @@ pub fn scenarios(tier: Tier) -> Vec<Scenario> {
         let direct = vec![1u32];
         let chan = if with_chan { vec![2u32] } else { vec![] };
         v.push(scn(
-            format!("C15/P{}k{}cap{}{}{}{}", np, k, cap, pol.s(), if with_chan { "+chan" } else { "" }, if reader { "+clone" } else { "" }),
+            format!("C15/P{}k{}cap{}{}{}{}", np, k, cap, pol.s(), if with_chan { "+chan" } else { "" }, if reader { "+clone" } else if iter_clone { "+iter" } else { "" }),
             prog,
             bound,
             opts_elide(),
             move |r, _| c04::check(r, pol, &direct, &chan),
         ));
     };
+    add_x(1, 2, 2, Pol::Block, false, false, true, 2);
+    add_x(1, 3, 1, Pol::Block, false, false, true, 2);
+    if tier == Tier::Thorough {
+        add_x(1, 2, 1, Pol::Block, false, false, true, 3);
+        add_x(2, 1, 2, Pol::Block, true, false, true, 2);
+        add_x(1, 2, 1, Pol::Oldest, false, false, true, 3);
+    }
+    let mut add = |np: u32, k: u32, cap: usize, pol: Pol, with_chan: bool, reader: bool, bound: u32| add_x(np, k, cap, pol, with_chan, reader, false, bound);
     match tier {
         Tier::Quick => {
             add(1, 2, 1, Pol::Block, false, false, 2);
